@@ -10,7 +10,8 @@ from mc.core import Result, SubCheck
 
 PROPERTY = "C17"
 ASSUMPTIONS = [
-    "clean_composite_curve: finely sampled smooth / kinked curves of 101 and 401 points with spans 0.14 .. 5000, and every polyline with strictly descending T (n<=6 quick / 7 thorough) and H in {0..3}^n, at scales 1 and 1e-3, plus +-5e-7 perturbations of one point",
+    "clean_composite_curve: tables whose temperatures are only NON-increasing (a temperature on two or three consecutive rows, as stored tables have after rounding), with a geometric oracle "
+    "(every original point of the non-flat extent within 1e-6 of the kept polyline); finely sampled smooth / kinked curves of 101 and 401 points with spans 0.14 .. 5000, and every polyline with strictly descending T (n<=6 quick / 7 thorough) and H in {0..3}^n, at scales 1 and 1e-3, plus +-5e-7 perturbations of one point",
     "get_piecewise_data_points: every polyline with x = 0..n-1 and y in {0..3}^n (n = 2..6 quick / 7 thorough), eps in {0.1,0.5,1}, hot and cold; "
     "finite parametrised families (convex, concave, sigmoid, staircase, steam-like) of 11/50/500 points reach the refinement branch; "
     "monotone lattice paths over the moves {plateau, vertical step, diagonal, shallow, steep} cover profiles where the temperature is not a function of the enthalpy "
@@ -25,6 +26,7 @@ def clean_cases(tier, inst):
         for n in (101, 401):
             for span in (0.14, 1.0, 60.0, 5000.0):
                 yield {"dense": [kind, n, span]}
+    yield from steps_cases(tier)
     nmax = 6 if tier == "quick" else 7
     for n in range(2, nmax + 1):
         for v in itertools.product(range(4), repeat=n):
@@ -37,6 +39,62 @@ def clean_cases(tier, inst):
                         yield {"H": list(v), "scale": 1.0, "pert": [k, d]}
                     # finely spaced enthalpies (1e-3 apart) with one temperature moved by 1e-4 K: 100 x the tolerance, must survive
                     yield {"H": list(v), "scale": 1e-3, "pert": None, "tpert": [k, 1e-4]}
+
+
+def steps_cases(tier):
+    """Tables as the service stores them after rounding: temperatures NON-increasing (the same temperature may appear on two or three
+    consecutive rows, with equal or different enthalpies - a repeated row, or an isothermal jump)."""
+    nmax = 5 if tier == "quick" else 6
+    for n in range(3, nmax + 1):
+        for stay in itertools.product((0, 1), repeat=n - 1):          # 1 = this row repeats the temperature of the row above
+            if not any(stay):
+                continue                                               # strictly descending: the lattice family above
+            for v in itertools.product(range(4), repeat=n):
+                yield {"steps": list(stay), "H": list(v)}
+
+
+def steps_run(case, res: Result):
+    from OpenPinch.utils.miscellaneous import clean_composite_curve
+
+    H = [float(h) for h in case["H"]]
+    T, t = [], 100.0
+    for i in range(len(H)):
+        if i > 0 and not case["steps"][i - 1]:
+            t -= 10.0
+        T.append(t)
+    Tk, Hk = clean_composite_curve(list(T), list(H))
+    Tk, Hk = [float(x) for x in Tk], [float(x) for x in Hk]
+    n = len(H)
+    res.add_case(case, 0 < len(Tk) < n, outcome=[Tk, Hk])
+    detail = {"T": T, "H": H, "kept_T": Tk, "kept_H": Hk}
+    # non-flat extent: from the last row of the leading constant-enthalpy run to the first row of the trailing one
+    a, b = 0, n - 1
+    while a < b and H[a + 1] == H[a]:
+        a += 1
+    while b > a and H[b - 1] == H[b]:
+        b -= 1
+    if a >= b:
+        if len(Tk) > 0 and max(Hk) - min(Hk) > 0:
+            res.violate("flat_curve_not_flat", case, detail, "clean:steps:flat")
+        return
+    if len(Tk) < 2:
+        res.violate("non_flat_curve_removed_entirely", case, detail, "clean:steps:removed")
+        return
+    pts = list(zip(H, T))
+    kept = list(zip(Hk, Tk))
+    pos = 0
+    for q in kept:
+        while pos < n and pts[pos] != q:
+            pos += 1
+        if pos == n:
+            res.violate("kept_point_not_original_or_out_of_order", case, detail, "clean:steps:kept_point_not_original")
+            return
+        pos += 1
+    if kept[0] != pts[a] or kept[-1] != pts[b]:
+        res.violate("end_of_non_flat_extent_not_kept", case, dict(detail, first=pts[a], last=pts[b]), "clean:steps:ends")
+    worst = max(_dist_point_polyline(p, kept) for p in pts[a:b + 1])
+    if worst > 1e-6:
+        res.violate("curve_moved", case, dict(detail, max_distance=worst), "clean:steps:curve_moved")
 
 
 def dense_curve(kind, n, span):
@@ -55,6 +113,8 @@ def dense_curve(kind, n, span):
 def clean_run(case, res: Result):
     from OpenPinch.utils.miscellaneous import clean_composite_curve
 
+    if "steps" in case:
+        return steps_run(case, res)
     if case.get("dense"):
         kind, n, span = case["dense"]
         T, H = dense_curve(kind, n, span)
@@ -271,7 +331,8 @@ SUBCHECKS = {
         describe="clean_composite_curve on all lattice polylines (with scale and near-tolerance variants)",
         rule="case = (H vector, scale, perturbation); non-trivial = at least one point removed and at least one kept; outcomes = distinct kept point lists",
         cases=clean_cases, run=clean_run,
-        bound=lambda t: "{0..3}^n n<=6, scales {1,1e-3}, single-point perturbations for n<=4" if t == "quick" else "{0..3}^n n<=7 ...",
+        bound=lambda t: ("{0..3}^n n<=6, scales {1,1e-3}, single-point perturbations for n<=4; tables with repeated temperatures: every pattern x {0..3}^n, n<=5" if t == "quick"
+                         else "{0..3}^n n<=7 ...; tables with repeated temperatures n<=6"),
     ),
     "piecewise": SubCheck(
         name="piecewise",
